@@ -58,7 +58,7 @@ type InMsg struct {
 	PreSeq   []ref.Tok `json:"pre_seq,omitempty"` // header fields placed before MsgSeqNum (decoys)
 	Fields   []ref.Tok `json:"fields,omitempty"`  // body fields
 	PadLen   int       `json:"pad_len,omitempty"` // BodyLength written with this many leading zeros (the same number, another legal spelling)
-	Damage   string    `json:"damage,omitempty"`  // "", "checksum", "checksum-spelling", "bodylength", "bodylength-extreme", "truncate", "no-msgtype"
+	Damage   string    `json:"damage,omitempty"`  // "", "checksum", "checksum-spelling", "bodylength", "bodylength-extreme", "leading-field", "trailing-field", "truncate", "no-msgtype"
 	DamageBy int       `json:"damage_by,omitempty"`
 	Note     string    `json:"note,omitempty"`
 }
@@ -105,6 +105,27 @@ func (m *InMsg) Bytes() []byte {
 		ts, _ := ref.Tokenize(b)
 		ext := []string{"0", "99999", "-30", "2147483648", "99999999999999999999", "-9223372036854775808", "1"}
 		b = relength(b, ts[1].Val, ext[m.DamageBy%len(ext)])
+	case "leading-field", "trailing-field":
+		// a stray field in front of BeginString (the CheckSum covers it, BodyLength is not concerned),
+		// or behind the CheckSum field: everything else is right
+		stray := []string{"58=oops\x01", "1=x\x01", "9=5\x01", "35=0\x01"}[m.DamageBy%4]
+		if m.Damage == "trailing-field" {
+			b = append(b, []byte(stray)...)
+			break
+		}
+		if m.DamageBy%8 >= 4 {
+			// ... and a BodyLength that counts the stray bytes too (what a length taken as "everything
+			// but the three framing fields" would come to)
+			ts, _ := ref.Tokenize(b)
+			n, _ := strconv.Atoi(ts[1].Val)
+			b = relength(b, ts[1].Val, strconv.Itoa(n+len(stray)))
+		}
+		body := append([]byte(stray), b[:len(b)-7]...)
+		sum := 0
+		for _, c := range body {
+			sum += int(c)
+		}
+		b = append(body, []byte(fmt.Sprintf("10=%03d\x01", sum%256))...)
 	case "checksum":
 		n := len(b)
 		cs, _ := strconv.Atoi(string(b[n-4 : n-1]))
